@@ -41,7 +41,7 @@ CLOCKS = {
     "DDR3": [100e6, 125e6, 166e6, 200e6, 233e6],
     "DDR4": [150e6, 200e6, 233e6, 266e6, 300e6, 333e6],
 }
-MAX_WORDS = 1 << 15          # model memory words over all banks (one Migen signal each in the simulators)
+MAX_WORDS = 1 << 14          # model memory words over all banks (one Migen signal each in the simulators)
 
 
 def log2(n):
@@ -168,8 +168,27 @@ def strip_displays(stmts):
     return out
 
 
+@contextlib.contextmanager
+def cheap_signal_names():
+    """Every Signal() walks the whole Python stack to derive a name for Verilog output (migen.fhdl.tracer.trace_back); the
+    simulator front end creates one Signal per memory word.  Names are irrelevant for simulation: stub the walk while the
+    device and its simulator are built."""
+    import migen.fhdl.tracer as tr
+    orig = tr.trace_back
+    tr.trace_back = lambda varname=None: [(varname or "sig", 0)]
+    try:
+        yield
+    finally:
+        tr.trace_back = orig
+
+
 def get_sim(cfg, backend="fast"):
     """(dut, sim).  dut has .dfi (and .ports for a core configuration)"""
+    with cheap_signal_names():
+        return _get_sim(cfg, backend)
+
+
+def _get_sim(cfg, backend="fast"):
     mk = CoreModelDUT if cfg.get("core") else build_model
     if backend == "migen":
         dut = mk(cfg)
@@ -597,21 +616,24 @@ def legality_complaints(run):
 
 
 def hazards(run, upto_t=None, bank=None):
-    """same-cycle command combinations of a schedule (the `free` shape can produce them)"""
-    nph = run.P["nph"]
+    """same-cycle command combinations of a schedule (only the `free` shape can produce them); with `bank`: only the
+    combinations that involve that bank, up to DRAM clock `upto_t`"""
     by = {}
     for c in run.sched.cmds:
         if c["cs"] or (upto_t is not None and c["t"] > upto_t):
             continue
         by.setdefault(c["cyc"], []).append(c)
     hz = set()
+
+    def on(c):
+        return bank is None or c["kind"] in ("PREA", "REF") or c["bank"] == bank
     for cyc, L in by.items():
-        kinds = [c["kind"] for c in L]
-        if kinds.count("ACT") >= 2:
+        acts = [c for c in L if c["kind"] == "ACT"]
+        if len(acts) >= 2 and any(on(c) for c in acts):
             hz.add("two_act_one_cycle")
         for a in L:
             for b in L:
-                if a is b or a["t"] >= b["t"]:
+                if a is b or a["t"] >= b["t"] or not (on(a) and on(b)):
                     continue
                 same = a["bank"] == b["bank"] or a["kind"] in ("PREA", "REF") or b["kind"] in ("PREA", "REF")
                 if not same:
@@ -628,7 +650,12 @@ def diagnose(run, mis):
     P = run.P
     loc = mis.get("loc")
     if run.case.get("shape") == "free":
-        hz = hazards(run)
+        ent = None
+        if loc is not None:
+            for e in run.sched.rwlog:
+                if e["kind"] == "RD" and e["t"] // P["nph"] + P["rl"] == mis.get("due"):
+                    ent = e
+        hz = hazards(run, ent["t"], loc[1]) if ent is not None else hazards(run)
         if hz:
             return "same_cycle_commands:" + "+".join(sorted(hz))
     if P["colbits"] > 10:
@@ -859,6 +886,10 @@ def model_cfg(draw, memtype=None, ncols=None, init=None, core=False, base=None, 
     cfg = dict(memtype=mt, base=bname, clk_freq=draw(st.sampled_from(CLOCKS[mt])), databits=draw(st.sampled_from([8, 16, 16, 32, 64])))
     nbanks = bcls.nbanks if lg else draw(st.sampled_from([2, 4, 8, 16] if mt == "DDR4" else [2, 4, 8]))
     nc = ncols or (bcls.ncols if lg else draw(st.sampled_from([256, 512, 1024, 1024, 2048])))
+    if core:
+        # the controller itself ORs column bit 10 onto A10 (core/bankmachine.py: cmd.a = auto_precharge << 10 | col), so with more than
+        # 1 Ki columns its stream is not the JEDEC encoding of what it means: not a source of legal traces for this property
+        nc = min(nc, 1024)
     nrows = draw(st.sampled_from([8, 16, 32]))
     cfg.update(nbanks=nbanks, nrows=nrows, ncols=nc)
     cfg["weg"] = draw(st.sampled_from([8, 8, 0])) if weg is None else weg
